@@ -218,6 +218,23 @@ CHECKS["C14"] = dict(
     note="uriparse::URIReference is a model (mirsym/summ_uri.py: RFC 3986 shape, text/scheme/path preserved); symbolic pieces are unreserved URI "
          "characters without empty path segments; TOML reading/writing of package.toml is C08/C07's subject (the replay goes through the real files). " + BASE_NOTE)
 
+CHECKS["C05"] = dict(
+    text="Bounded model checking from MIR of the whole entry point libcnb_runtime (API gate, argv[0]/argument handling, exit), "
+         "libcnb_runtime_detect, libcnb_runtime_build, DetectArgs/BuildArgs::parse, read_buildpack_dir, read_buildpack_descriptor, context_target, "
+         "read_platform_env, read_toml_file/write_toml_file with the derived (de)serializers of BuildpackDescriptorApiOnly, BuildpackApi, "
+         "BuildpackPlan, Store, BuildPlan, Launch. Product explored: 6 executable names x 0..4 arguments x buildpack.toml (absent | invalid syntax "
+         "| no api key | api = <major>.<minor> / <major> with both numbers solver variables over u64 | 11 malformed spellings | rest of the "
+         "descriptor accepted/rejected) x presence of CNB_BUILDPACK_DIR and each CNB_TARGET_* variable (solver variables) x buildpack "
+         "behaviour (detect: fail, pass, pass+plan, error; build: error or 6 (quick) / 36 (thorough) combinations of launch, store "
+         "none/empty/non-empty, build and launch SBOM sets) x each output file pre-existing or not x valid/invalid buildpack plan and old "
+         "store. Per path the solver decides the statement's decision table: exit code, exactly-once on_error, buildpack code never reached "
+         "and never exit 0 unless the API denotes 0.10 and name, argument count and mandatory environment are right, and exactly the provided "
+         "outputs written (all others byte-identical to their old state).",
+    design_ref="DESIGN.md §5 C05",
+    technique="symbolic execution of rustc MIR (mirsym) over models of argv/env/cwd/exit and the file system, API version numbers and presence flags as SMT variables + z3; witness replay by re-executing the driver as detect/build with a recording buildpack",
+    note="No I/O faults while writing (C12); the full descriptor's deserialisation is abstracted to accepted/rejected (C08/C06); toml text layer "
+         "abstracted; `trace` feature off. " + BASE_NOTE)
+
 NOT_YET = "check not built yet in this round (see DESIGN.md §9 build order); no claim is made"
 NOT_APPLICABLE = {}
 ALL = [f"C{i:02d}" for i in range(1, 21)]
